@@ -191,7 +191,9 @@ func (o *Output) RecomputeAdvance() {
 // TODO: should we take into account multiple spaces ?
 func (o *Output) advanceSpaceAware(paragraphDir di.Direction) fixed.Int26_6 {
 	L := len(o.Glyphs)
-	if L == 0 || paragraphDir != o.Direction {
+	// compare the progressions only : for vertical text, the orientation
+	// flags (upright/sideways) of the run and of the paragraph usually differ
+	if L == 0 || paragraphDir.Progression() != o.Direction.Progression() {
 		return o.Advance
 	}
 
